@@ -38,7 +38,7 @@ RULE = (
     "identical vectors merged) x stack letter (roll: same vector rolled by the snapshot index so zeros sit "
     "at different grains in different snapshots; mix: a different letter per snapshot so volume multisets "
     "differ between snapshots) x [real RNG: n_samples letters (default, 1, 2, M, 100, 1e4) x seeds, each "
-    "called twice] + [controlled RNG: midpoint grids K in {M(default n_samples), M, 10, 1000} and all "
+    "called twice; 100001, 150000 and 234567 samples once each] + [controlled RNG: midpoint grids K in {M(default n_samples), M, 10, 1000} and all "
     "constant edge answers x n_samples in {default, 1, 7}]; orientations are pairwise distinct letters "
     "of the shared orientation alphabet. part shape: all orientation shapes of rank 1..5 x all fraction "
     "shapes of rank 1..3 over the dimension alphabet x n_samples in {default, 2}. A sub-case is "
@@ -60,7 +60,7 @@ ASSUMPTIONS = [
     "created) are reported as notes and never decide",
 ]
 BOUND = {
-    "quick": "N<=3, M in {1,2,3,5}, n_samples<=1e4, seeds 0..3, grids K<=1000, shape dims {1,2,3,4} ranks 1..5 x 1..3",
+    "quick": "N<=3, M in {1,2,3,5}, n_samples<=1e4 (+100001, 150000, 234567 once each), seeds 0..3, grids K<=1000, shape dims {1,2,3,4} ranks 1..5 x 1..3",
     "thorough": "N<=4, M in {1,2,3,5,8,13}, n_samples<=1e4 (+1e6 once), seeds 0..7, grids K<=1e5, shape dims {1..5} ranks 1..5 x 1..3",
 }
 
@@ -190,8 +190,14 @@ def gen_cases(tier, seed):
                 keys.append({"part": "sample", "N": N, "M": M, "vol": vol, "stack": "roll"})
                 if N >= 2 and len(_vol_letters(M)) >= 2:
                     keys.append({"part": "sample", "N": N, "M": M, "vol": vol, "stack": "mix"})
+    # large sample counts that are not round numbers (a block-wise draw that drops the
+    # remainder: seed C15f), in both tiers; 1e6 once in the thorough tier
+    for ns in (150000, 234567):
+        keys.append({"part": "big", "N": 2, "M": 5, "vol": "dominant", "stack": "mix", "ns": ns})
+    keys.append({"part": "big", "N": 1, "M": 3, "vol": "dominant", "stack": "roll", "ns": 100001})
     if tier == "thorough":
         keys.append({"part": "big", "N": 2, "M": 5, "vol": "dominant", "stack": "mix", "ns": 10**6})
+        keys.append({"part": "big", "N": 2, "M": 5, "vol": "dominant", "stack": "mix", "ns": 10**6 + 7})
     # consistent shapes first (simplest), then by rank
     shapes = _shapes(c["dims"], range(1, 6))
     shapes.sort(key=lambda s: (not (len(s) == 4 and s[2:] == (3, 3)), len(s), s))
